@@ -27,7 +27,7 @@ KIND_FIELD = {"PublicTrades": "trades", "OrderBooksL1": "l1s", "OrderBooksL2": "
 
 def r1(ctx):
     ST = "barter_data::transformer::stateless::StatelessTransformer"
-    b = ctx.fbody(name="transform", self_adt=ST, trait="barter_integration::Transformer")
+    b = ctx.fibody(name="transform", self_adt=ST, trait="barter_integration::Transformer")
     tab = {}
     for g, term, bi in b.expanded_cases(0):
         for conj in g:
@@ -49,7 +49,7 @@ def r1(ctx):
     ctx.check("StatelessTransformer::transform", norm == want,
               "no id -> nothing; subscribed id -> events built from (Exchange::ID, the key stored under that id, the message); "
               "unknown id -> Unidentifiable error (never an event for another instrument)", got=norm, want=want, key="table")
-    fm = ctx.fbody(name="find", self_adt="barter_data::subscription::Map", trait="")
+    fm = ctx.fibody(name="find", self_adt="barter_data::subscription::Map", trait="")
     look = [render(tm) for bi, t, tm in fm.real_calls() if mir._strip_generics(tm[1]).endswith("HashMap::get")]
     ctx.check("Map::find", look == ["HashMap::get(self.0, id)"], "keyed lookup of the given subscription id", got=look, key="keyed")
 
@@ -57,26 +57,22 @@ def r1(ctx):
 def r2(ctx):
     WM = "barter_data::subscriber::mapper::WebSocketSubMapper"
     m = ctx.find(name="map", self_adt=WM, trait="barter_data::subscriber::mapper::SubscriptionMapper")
-    found = []
-    for d in ctx.closures_of(m):
-        cb = ctx.body(d)
-        for bi, t, tm in cb.real_calls():
-            if mir._strip_generics(tm[1]).endswith("HashMap::insert"):
-                found.append((render(tm[2][1]), render(tm[2][2]), t["sp"], cb.guard(bi) == frozenset([frozenset()])))
-    ok = len(found) == 1 and found[0][0] == "Identifier::id(ExchangeSub::new($1))" and found[0][1] == "InstrumentData::key($1.instrument)" and found[0][3]
+    views = [v for v in common.elementwise_views(ctx, m) if any("HashMap::insert(" in c[0] for c in v["calls"])]
+    ok = len(views) == 1
+    ins = [c for c in views[0]["calls"] if c[0].startswith("HashMap::insert(")] if ok else []
+    ok = ok and len(ins) == 1 and ins[0][1] == "true" and \
+        ins[0][0].endswith(", Identifier::id(ExchangeSub::new($x)), InstrumentData::key($x.instrument))")
     ctx.check("WebSocketSubMapper::map", ok,
-              "each subscription contributes exactly one entry: (the id derived from that subscription, that subscription's own instrument key)",
-              sites=[f[2] for f in found], got=[f[:2] for f in found], key="pairing")
-    mb = ctx.body(m)
-    mp = [tm for bi, t, tm in mb.real_calls() if tm[1].endswith("Iterator::map")]
-    ctx.check("WebSocketSubMapper::map", len(mp) == 1 and render(mp[0][2][0]) in ("subscriptions", "slice::iter(subscriptions)"), "every subscription is mapped",
-              got=[render(x)[:120] for x in mp], key="all")
+              "each subscription contributes exactly one entry: (the id derived from that subscription, that subscription's own instrument key), "
+              "unconditionally", sites=[v["site"] for v in views], got=[c[0][-120:] for c in ins], key="pairing")
+    ctx.check("WebSocketSubMapper::map", len(views) == 1 and views[0]["source"] == "subscriptions" and views[0]["yields"] == ["ExchangeSub::new($x)"],
+              "every subscription is mapped, and yields its own exchange subscription", got=[(v["source"], v["yields"]) for v in views], key="all")
 
 
 def _channel_consts(ctx, d):
     """channel constants mentioned in body d"""
     out = set()
-    b = ctx.body(d)
+    b = ctx.ibody(d)
     terms = [b.return_term()] + [b.call_term(t, bi) for bi, t in b.iter_calls()]
     for tm in terms:
         for sub in mir.subterms(tm):
@@ -213,14 +209,14 @@ def r4(ctx):
     n = 0
     for d, msg, event in _conversions(ctx):
         short = msg[len("barter_data::exchange::"):][:80]
-        b = ctx.body(d)
+        b = ctx.ibody(d)
         bodies = [(d, None)]
         for cd in ctx.facts.bodies:
             if cd.startswith(d + "::{closure#"):
                 bodies.append((cd, d))
         events = []
         for bd, parent in bodies:
-            bb = ctx.body(bd)
+            bb = ctx.ibody(bd)
             terms = [bb.return_term()] + [bb.call_term(t, bi) for bi, t in bb.iter_calls()]
             for tm in terms:
                 for s in mir.subterms(tm):
@@ -263,6 +259,19 @@ def r4(ctx):
                 for role in ("price", "amount", "side", "best_bid", "best_ask"):
                     if role in kf:
                         ok, names = _role_ok(kf[role], role)
+                        if role in ("best_bid", "best_ask"):
+                            # an optional side built under a branch: the CONDITION must also read this side's own fields
+                            # (`if ask_price.is_zero() { None } else { Some(bid level) }` drops / invents a side)
+                            for ph in [x for x in mir.subterms(kf[role]) if x[0] == "phi" and len(x) > 2 and x[2] is not None]:
+                                for g, t_, bi_ in bb.local_cases(ph[2]):
+                                    for conj in g:
+                                        for a in conj:
+                                            nms = [x for x in (".".join(e for e in lf[2] if not e.isdigit() and not e.startswith("as:"))
+                                                               for lf in _leaves(a[1])) if x]   # '' = a test of the message's own variant
+                                            if nms:
+                                                want_re, forbid_re = ROLE[role]
+                                                ok = ok and all(re.search(want_re, x, re.I) for x in nms) and not any(re.search(forbid_re, x, re.I) for x in nms)
+                                                names = names + ["(condition) " + x for x in nms]
                         ctx.check("%s:%s.%s" % (short, k[1].rsplit("::", 1)[-1], role), ok,
                                   "`%s` is filled from message fields of the same role (never crossed)" % role,
                                   got=names or render(kf[role])[:120], key="role")
@@ -288,7 +297,7 @@ def _ids(ctx):
     for d, r in ctx.facts.bodies.items():
         if r["kind"] == "assoc_const" and r.get("name") == "ID":
             tr = r.get("impl_trait") or ""
-            rt = ctx.body(d).return_term()
+            rt = ctx.ibody(d).return_term()
             val = rt[1].rsplit("::", 1)[-1] if rt[0] == "agg" and "ExchangeId::" in rt[1] else None
             if tr.endswith("ExchangeServer"):
                 server[r["impl_self"]] = val
@@ -318,7 +327,7 @@ def r5(ctx):
         if not any(blk["term"] and blk["term"]["t"] == "call" and blk["term"]["f"].get("def", "").endswith("consumer::init_market_stream")
                    for blk in rec["blocks"]):
             continue
-        b = ctx.body(d)
+        b = ctx.ibody(d)
         closures_by_guard = {}
         for blk in b.blocks:
             if blk["cleanup"] or blk["i"] not in b.reachable:
@@ -346,7 +355,7 @@ def r5(ctx):
                 for dd in [cd] + [x for x in ctx.facts.bodies if x.startswith(cd + "::{closure#")]:
                     if dd not in ctx.facts.bodies:
                         continue
-                    cb = ctx.body(dd)
+                    cb = ctx.ibody(dd)
                     for _, _, tm in cb.real_calls():
                         if mir._strip_generics(tm[1]).endswith("::get") and tm[2] and tm[2][0][0] == "proj":
                             fields.add(tm[2][0][2][-1])
